@@ -33,6 +33,12 @@ func (m *Map[K, V]) ToJSON() ([]byte, error) {
 		if err != nil {
 			return nil, err
 		}
+		if len(km) == 0 || km[0] != '"' {
+			// object keys must be strings: quote non-string keys as encoding/json does for map keys
+			if km, err = json.Marshal(string(km)); err != nil {
+				return nil, err
+			}
+		}
 		buf.Write(km)
 
 		buf.WriteRune(':')
